@@ -5,6 +5,7 @@ scalars.  Every arithmetic operation builds a z3 term; every comparison that
 reaches a Python ``if`` becomes a decision of the path explorer.  Nothing here
 knows anything about emg3d.
 """
+import os
 import time
 import itertools
 from fractions import Fraction
@@ -55,7 +56,9 @@ class Ctx:
         self.fp_refine = []       # exact definitions of abstract products
         self.refine_timeout_ms = 60000
         self.str_free = {}        # id of string var -> set of chars it lacks
-        self.sample_smt2 = None   # list -> keep SMT-LIB2 text of a few queries
+        # list -> keep SMT-LIB2 text of a few discharged queries (second
+        # opinion by cvc5, see harness.common); enabled by SYMX_SAMPLE
+        self.sample_smt2 = [] if os.environ.get('SYMX_SAMPLE') else None
         self.uf = {}
 
     # -- variables --------------------------------------------------------
